@@ -505,6 +505,20 @@ class Project:
                 with open(path, encoding="utf-8") as fh:
                     text = fh.read()
                 self.modules[name] = Module(name, path, rel, text)
+        # simple names of the package's functions whose return annotation excludes None (unanimously, when a name occurs more
+        # than once): `x = f(..)` then decides a later `x is None` for the CFG's jump threading (annotations are trusted: the
+        # project is mypy-checked)
+        from . import cfg as _cfg
+
+        seen_ann: dict[str, bool] = {}
+        for m_ in self.modules.values():
+            for f_ in m_.functions.values():
+                r_ = getattr(f_.node, "returns", None)
+                txt_ = ast.unparse(r_) if r_ is not None else ""
+                notnone = bool(txt_) and "None" not in txt_ and "Optional" not in txt_ and "Any" not in txt_ and not any(isinstance(n_, (ast.Yield, ast.YieldFrom)) for n_ in walk_no_nested(f_.node)) and not isinstance(f_.node, ast.AsyncFunctionDef)
+                seen_ann[f_.name] = seen_ann.get(f_.name, True) and notnone
+        _cfg.RETURNS_NOT_NONE.clear()
+        _cfg.RETURNS_NOT_NONE.update({k for k, v in seen_ann.items() if v})
         self._fold_cache: dict[tuple[str, str], Any] = {}
         self._folding: set[tuple[str, str]] = set()
 
